@@ -2,6 +2,7 @@ import TongoProofs.Lemmas.TlbSpec
 import TongoProofs.C03
 import TongoProofs.Lemmas.TlbBitsRefine
 import TongoProofs.Lemmas.HashmapSound
+import TongoProofs.Lemmas.TlbDns
 import TongoGen.TlbTypes
 /-! # C04 — TL-B encodings are bit-exact with the TON schemas
 
@@ -226,8 +227,9 @@ theorem impl_eq_spec_Transaction : implementsSpec env desc_tlb_Transaction Spec.
 
 
 /-! wallet v5 (r1): the list of out-actions, the extended actions and the signed / extension bodies. The extended
-actions (`chain`) have a model and this schema tie, but no round-trip theorem (C03): the decoder follows the next
-reference of the cell whenever there is one, which the greedy / non-greedy split of `RT` does not express. -/
+actions (`chain`) have a model, this schema tie and — since round 3 — their own round-trip theorem in C03
+(`CodecOK_w5ExtendedActions`, `roundtrip_wallet_MessageV5`: the third mode "follows the next reference whenever there is
+one"). -/
 open TongoGen.TlbTypes in
 theorem impl_eq_spec_OutList : implementsSpec env desc_wallet_W5Actions Spec.OutList = true := by decide +kernel
 open TongoGen.TlbTypes in
@@ -312,6 +314,38 @@ theorem ext_message_layout (wc : Int) (addr : List UInt8) (body : Cell) (init : 
     ∃ g c, specChunk senv g Spec.Message (extMessageVal wc addr body init fee) = some c ∧
       b'.toCell = Cell.mk 0 0 c.1 c.2 :=
   impl_cell_eq_spec _ _ _ impl_eq_spec_Message fuel _ hd b' he
+
+/-! ## DNS text (TEP-81 / block.tlb `Text`): the decoder against the schema
+
+The library has no encoder for `tlb.DNSText`; the schema side `Dns.specDnsText` is the transcription of
+
+    text$_ chunks:(## 8) rest:(TextChunks chunks) = Text;
+    text_chunk$_ {n:#} len:(## 8) data:(bits (len * 8)) next:(TextChunkRef n) = TextChunks (n + 1);
+    chunk_ref$_ {n:#} ref:^(TextChunks (n + 1)) = TextChunkRef (n + 1);
+
+(the first chunk in the cell of the text, every further chunk in a cell behind the first reference of the previous
+one). The tie to the Go code: `tlb.dnstext` / `tlb.dns` (Go decoder = model decoder on schema-built and damaged cells),
+`tlb.dnsspec` (the harness's own schema-based cell builder = `specDnsText`). A change of the width of `chunks` or `len`
+in `readChunks` is a mismatch on the first line with a non-trivial chunk. -/
+
+/-- **dnsText_decodes_spec**: the model of `DNSText.UnmarshalTLB` returns the concatenation of the chunks of every cell
+the schema prescribes (up to 255 chunks of up to 255 bytes; a real cell holds at most 125 / 126 bytes per chunk),
+whatever follows the text in the cell -/
+theorem dnsText_decodes_spec (chunks : List (List UInt8)) (hq : chunks.length < 256)
+    (hl : ∀ c ∈ chunks, c.length < 256) (s : Slice) (ys : List Bool) (rs : List Cell) :
+    Dns.decDnsText (s.prepend ((Dns.specDnsText chunks).1 ++ ys) ((Dns.specDnsText chunks).2 ++ rs))
+      = .ok (chunks.flatten, s.prepend ys rs) :=
+  Dns.dnsText_decodes_spec chunks hq hl s ys rs
+
+/-- the schema on literals (TEST): "ab" + "c" in two chunks, and the `dns_text#1eda` record around it -/
+example :
+    Dns.specDnsText [[97, 98], [99]] =
+      (natToBits 8 2 ++ (natToBits 8 2 ++ natToBits 8 97 ++ natToBits 8 98), [Cell.mk 0 0 (natToBits 8 1 ++ natToBits 8 99) []]) ∧
+    (match Dns.decDnsRecord (Slice.ofCell (Cell.mk 0 0 (natToBits 16 0x1eda ++ (Dns.specDnsText [[97, 98], [99]]).1)
+        (Dns.specDnsText [[97, 98], [99]]).2)) with
+      | .ok (.cons (.sym n) (.cons (.bytes t) .nil)) => n == "DNSText" && t == [97, 98, 99]
+      | _ => false) = true := by
+  exact ⟨by rfl, by decide⟩
 
 /-! ## The dictionary part of the schema side
 
